@@ -2,7 +2,7 @@
    bool/option/unit/list/prod/sumbool map to OCaml's own types; Z, N, positive and nat stay
    Coq's inductive types.  No Extract Constant / Extract Inductive directive of our own. *)
 From Coq Require Import Extraction ExtrOcamlBasic.
-From Suiron Require Import Model.Str Model.Float Model.Term Model.Subst Model.Compare Model.Arith Model.Show Model.Lists Model.Unify Model.Builtins Model.Rename Model.Solve Model.Api Spec.SpecSolve Spec.SpecLazy Spec.SpecCut Model.Reader Spec.SpecLoad Model.Tokenizer Model.ParseRule Model.ShowGoal Model.ParseTerm Model.ParseGoal.
+From Suiron Require Import Model.Str Model.Float Model.Term Model.Subst Model.Compare Model.Arith Model.Show Model.Lists Model.Unify Model.Builtins Model.Rename Model.Solve Model.Api Model.Timer Spec.SpecSolve Spec.SpecLazy Spec.SpecCut Model.Reader Spec.SpecLoad Model.Tokenizer Model.ParseRule Model.ShowGoal Model.ParseTerm Model.ParseGoal.
 Extraction Language OCaml.
 Extraction "model.ml"
   Z.add Z.mul Z.opp Z.of_N N.add N.mul N.of_nat Nat.add Z.compare N.compare
@@ -13,7 +13,7 @@ Extraction "model.ml"
   show_term term_key make_linked_list make_list_of_terms link_front count_terms get_terms
   unify evaluate_join eval_function replace_variables filter run_bip format_for_print_pred format_slist
   rename_term rename_terms rename_goal rename_rule add_rules get_rule make_query kb_get
-  world0 api_make_query api_parse_query make_base_node make_node next solve solve_all query_stopped count_rules format_solution
+  world0 api_make_query api_parse_query tinit tstep tobs make_base_node make_node next solve solve_all query_stopped count_rules format_solution
   sem query_events answers_of output_of answers canswers
   strip_comments_at strip_comments check_last_char trim_error_line unmatched_bracket separate_rules read_facts_and_rules load_kb_from_file render legal wf_text expected
   tokenize token_tree generate_goal index_of_neck parse_rule show_goal show_rule show_infix
